@@ -438,9 +438,9 @@ def check_pure(ctx: Ctx) -> None:
     ctx.require("R-PURE", "renderer state fields", len(used), 4)
 
     # S3b class-level mutable defaults on classes of the formatting path
+    # (every class of the package: element / parser / renderer subclasses are instantiated and called by marko, so they do
+    # not show up as callees of the formatting entry points)
     for ci in repo.classes.values():
-        if not any(m.qual in scope for m in ci.methods.values()):
-            continue
         for name, val in ci.class_attrs.items():
             if isinstance(val, (ast.List, ast.Dict, ast.Set)) or (
                 isinstance(val, ast.Call) and isinstance(val.func, ast.Name) and val.func.id in ("list", "dict", "set")
